@@ -48,6 +48,7 @@ CHECKS = {
             {"test": "TestC10Sample", "rapid": False, "quick": 0, "thorough": 0, "shards": 16, "quick_shards": 8, "only_tier": "quick"},
             {"test": "TestC10Random", "quick": 20000, "thorough": 50000, "shards": 16, "quick_shards": 1},
             {"test": "TestC10Process", "quick": 3000, "thorough": 20000, "shards": 16, "quick_shards": 1},
+            {"test": "TestC10Files", "rapid": False, "quick": 0, "thorough": 0, "shards": 1},
         ],
         "assumptions": ["verif hook: VM instruction budget (1e6 in the enumerations, whose observed maximum is 1 568; 3e5 as a cost cap elsewhere) and progress measures - a loop activation with more iterations, or calls nested deeper, than the text is long plus 8 is a spin; a budget trip with bounded progress measures in the random part is a long search, not a verdict"],
     },
@@ -93,6 +94,7 @@ CHECKS = {
         "parts": [
             {"test": "TestC13", "quick": 4000, "thorough": 50000, "shards": 16, "quick_shards": 2},
             {"test": "TestC13History", "quick": 800, "thorough": 2000, "shards": 16, "quick_shards": 2},
+            {"test": "TestC13Files", "quick": 1500, "thorough": 10000, "shards": 16, "quick_shards": 2},
         ],
         "assumptions": ["capture-free bodies; runs above 100000 VM instructions are discarded and counted"],
     },
@@ -112,10 +114,12 @@ CHECKS = {
                         "K4 (capturing group under a quantifier with min >= 1 or max = 0) and K5 (numbered reference in a regex with named groups) excluded by construction and counted"],
     },
     "C15": {
+        "cli": True,
         "parts": [
             {"test": "TestC15Gaps", "rapid": False, "quick": 0, "thorough": 0, "shards": 16, "quick_shards": 8},
             {"test": "TestC15Long", "rapid": False, "quick": 0, "thorough": 0, "shards": 16, "quick_shards": 4},
             {"test": "TestC15Random", "quick": 5000, "thorough": 20000, "shards": 16, "quick_shards": 2},
+            {"test": "TestC15CLI", "rapid": False, "quick": 0, "thorough": 0, "shards": 1},
         ],
         "assumptions": ["layout soundness rules: nothing only between tokens that do not fuse, no comment glued to a preceding '-', comment bodies without newline / ')--'"],
     },
